@@ -171,9 +171,10 @@ class ClosureRw:
     `params` (regex) into `|NEWPARAMS| -> (r: RET) [requires ..] ensures ENS { [let PAT = _vxp;] BODY }`.
     The body text is carried over unchanged."""
 
-    def __init__(self, params, new_params, ret=None, ensures=None, requires=None, destructure=None, count=None, rname='r'):
+    def __init__(self, params, new_params, ret=None, ensures=None, requires=None, destructure=None, count=None, rname='r', follow=None):
         self.params, self.new_params, self.ret, self.ensures, self.requires = params, new_params, ret, ensures, requires
         self.destructure, self.count, self.rname = destructure, count, rname
+        self.follow = follow   # optional regex the closure body must start with (selects one of several same-headed closures)
 
     def describe(self):
         return f'closure |{self.params}|'
@@ -193,7 +194,7 @@ class ClosureRw:
         n = 0
         pos = 0
         out = []
-        rx = re.compile(r'\|\s*' + self.params + r'\s*\|', re.S)
+        rx = re.compile(r'\|\s*' + self.params + r'\s*\|' + (f'(?=\\s*(?:{self.follow}))' if self.follow else ''), re.S)
         while True:
             m = rx.search(text, pos)
             if not m:
